@@ -522,6 +522,12 @@ def site_guards(site):
         # `E.and_then(f)` / `E.filter(f)` / `E.map(..)` is Some  =>  E is Some, and (and_then, filter)
         # whatever dominates every Some / true return of f holds for E's payload
         e = g[1] if len(g) > 1 and isinstance(g[1], tuple) else None
+        # len(x) == 0  <=>  x.is_empty()
+        if g[0] in ("true", "false") and e is not None and e[0] == "bin" and e[1] in ("Eq", "Ne"):
+            for l_, r_ in ((e[2], e[3]), (e[3], e[2])):
+                if l_[0] == "len" and r_[0] == "c" and r_[1] == 0:
+                    holds_empty = (g[0] == "true") == (e[1] == "Eq")
+                    out.append("%s: <len == 0>::is_empty(%s)" % ("true" if holds_empty else "false", show(l_[1])))
         # std predicates with an exact meaning on the code point: c.is_ascii_digit() <=> '0' <= c <= '9'
         if g[0] == "true" and e is not None and e[0] == "call" and e[1].endswith("::is_ascii_digit") and len(e[2]) == 1 and ("char" in e[1] or "u8" in e[1]):
             out.append("true: Le(48, %s)" % show(e[2][0]))
@@ -660,6 +666,14 @@ def _callers_guarded(prog, fn, grx, depth):
     whose call sites are (recursively, depth <= 3)"""
     from . import paths
     cs = _callers_of(prog, fn)
+    # a closure runs where it is handed over: the statement that builds it stands for its call sites
+    fb = prog.bodies.get(fn)
+    if not cs and fb is not None and fb.kind == "Closure":
+        par = prog.bodies.get(getattr(fb, "direct_parent", None) or fb.parent)
+        if par is not None:
+            for bb_, i_, st_ in par.iter_stmts():
+                if st_["k"] == "assign" and st_["rv"]["k"] == "aggregate" and st_["rv"]["kind"].get("k") == "closure" and st_["rv"]["kind"].get("def") == fn:
+                    cs = cs + [(par, bb_, None)]
     if not cs or depth > 3:
         return False
     for b, bb, t in cs:
